@@ -261,7 +261,60 @@ def canonical_pattern(pattern, ndest):
     return tuple(tuple(s if d < ndest else HEALTHY for d, s in enumerate(p)) for p in pattern)
 
 
+def closed_stack_case(ctx, queue, first):
+    """the owner closes the stack with packets still queued and its service loop keeps running for a while (every transmit
+    service entry point is called on the closed stack), then opens it again: nothing is handed to the closed handler,
+    nothing raises, and after the reopen every packet is sent once, in order per destination"""
+    from ioflo.aio.proto import packeting
+    H = Harness("GramStack")
+    st = H.stack
+    st.handler.open()
+    tags = []
+    for i, d in enumerate(queue):
+        t = tag(i, d)
+        st.transmit(packeting.Packet(stack=st, packed=t), DESTS[d])
+        tags.append((t, d))
+    ctx.case(("closed-stack", tuple(queue), first), nontrivial=True)
+    ctx.hit("closed_stack_cases")
+    raised = None
+    during = []
+    try:
+        H.state, H.count, H.npass = {}, {}, 0
+        for _ in range(first):
+            st.serviceTxPktsOnce()
+        before = len(H.attempts)
+        st.handler.close()
+        for name in ("serviceTxPktsOnce", "serviceTxPkts", "serviceAllTxOnce", "serviceAllTx", "serviceTxPktsOnce"):
+            H.npass += 1
+            getattr(st, name)()
+            during.append((name, len(H.attempts) - before))
+        after_closed = len(H.attempts)
+        st.handler.open()
+        for _ in range(len(queue) + 2):
+            H.npass += 1
+            st.serviceTxPkts()
+    except Exception as ex:    # noqa
+        raised = ex
+        after_closed = len(H.attempts)
+    sent = [(t, DESTS.index(da)) for (_, t, da, ok) in H.attempts if ok]
+    w = lambda: {"queue": ["%s->%d" % (t.decode(), d) for t, d in tags], "sent_before_close": first, "raised": repr(raised),
+                 "send_attempts_while_closed": during, "sent": ["%s->%d" % (t.decode(), d) for t, d in sent],
+                 "left_in_txPkts": [bytes(p.packed).decode() for p, ha in st.txPkts]}
+    ctx.check(raised is None, "GramStack/closed/raises/%s" % (exc_key(raised) if raised is not None else ""),
+              "a transmit service call on a closed stack (or after its reopen) raised %r" % (raised,), w)
+    ctx.check(after_closed == before if raised is None else True, "GramStack/closed/packet-handed-to-a-closed-handler",
+              "a transmit service call on a closed stack took a packet from the queue and tried to send it", w)
+    if raised is None:
+        ok = sorted(sent) == sorted(tags) and all([t for t, d in sent if d == dd] == [t for t, d in tags if d == dd] for dd in range(3))
+        ctx.check(ok, "GramStack/closed/not-sent-exactly-once-in-order-after-reopen",
+                  "after a close with packets queued and a reopen the packets were not each sent once, in order per destination", w)
+
+
 def worker(ctx, job):
+    if job["k"] == 0:
+        for queue in queues(min(job["N"], 4)):
+            for first in range(0, min(3, len(queue))):
+                closed_stack_case(ctx, queue, first)
     N, alphabets = job["N"], job["alphabets"]
     K, k = job["K"], job["k"]
     i = 0
